@@ -592,7 +592,7 @@ def _try_interpret_as_dps(v: cirq.Operation) -> BaseDensePauliString | None:
     for q in ps.qubits:
         pauli_mask[q.x] = pauli_string.PAULI_GATE_LIKE_TO_INDEX_MAP[ps[q]]
 
-    return DensePauliString(pauli_mask)
+    return DensePauliString(pauli_mask, coefficient=ps.coefficient)
 
 
 def _vectorized_pauli_mul_phase(lhs: int | np.ndarray, rhs: int | np.ndarray) -> complex:
